@@ -72,7 +72,7 @@ pub fn mutate_program(rng: &mut Rng) -> String {
             break;
         }
         let i = rng.below(lines.len());
-        match rng.below(14) {
+        match rng.below(16) {
             0 => {
                 lines.remove(i);
             }
@@ -100,12 +100,24 @@ pub fn mutate_program(rng: &mut Rng) -> String {
             5 => {
                 let cs: Vec<char> = lines[i].chars().collect();
                 let k = rng.below(cs.len() + 1);
-                let ins = *rng.pick(&['+', ';', '@', ':', '\u{e9}', '"', '\'', '(', ')', '.', '\u{a0}', '\t', '\\']);
+                let ins = *rng.pick(&['+', ';', '@', ':', '\u{e9}', '"', '\'', '(', ')', '.', '\u{a0}', '\t', '\\', '\u{3000}', '\u{2003}']);
                 let mut v = cs;
                 v.insert(k, ins);
                 lines[i] = v.into_iter().collect();
             }
             6 => lines[i] = format!("{} \"unterminated", lines[i]),
+            15 => {
+                // string and character literals with escape sequences
+                let esc = ["\\n", "\\t", "\\0", "\\\\", "\\\"", "\\u0041", "\\u00e9", "\\u20ac", "\\uD800", "\\u12", "\\x41", "\\q"];
+                let a = esc[rng.below(esc.len())];
+                let b = esc[rng.below(esc.len())];
+                lines[i] = match rng.below(3) {
+                    0 => format!("    .asciz \"{a}x{b}\""),
+                    1 => format!("    li t0, '{a}'"),
+                    _ => format!("    .string \"{a}{b}{a}\" # {b}"),
+                };
+            }
+            14 => lines[i] = format!("    .asciz \"{}\" {}", ["\u{3000}", "\u{3000}\u{3000}\u{3000}", "a\u{2003}\u{2003}b", "\u{a0}\u{a0}"][rng.below(4)], ["x", "frob 1", "\"y\" z"][rng.below(3)]),
             7 => lines[i] = ".macro foo".to_string(),
             8 => lines[i] = format!("    .word {}", (0..rng.below(40)).map(|k| k.to_string()).collect::<Vec<_>>().join(", ")),
             9 => lines[i] = format!("    li t0, {}", NUMS[rng.below(NUMS.len())]),
@@ -119,6 +131,15 @@ pub fn mutate_program(rng: &mut Rng) -> String {
     if rng.chance(0.7) {
         t.push('\n');
     }
+    if rng.chance(0.25) {
+        // the file ends in the middle of anything (often right behind an escape sequence)
+        let cs: Vec<char> = t.chars().collect();
+        let cut = match cs.iter().rposition(|c| *c == '\\') {
+            Some(p) if rng.chance(0.6) => (p + 1 + rng.below(5)).min(cs.len()),
+            _ => rng.below(cs.len() + 1),
+        };
+        t = cs[..cut].iter().collect();
+    }
     t
 }
 
@@ -127,6 +148,12 @@ pub fn extremes(rng: &mut Rng, scale: usize) -> Vec<(&'static str, String)> {
     let n = scale;
     vec![
         ("empty", String::new()),
+        ("escape-cut-by-end-of-file", format!("main:\n    .asciz \"ab\\u{}", ["", "4", "41", "004"][rng.below(4)])),
+        ("char-escape-cut-by-end-of-file", format!("    li t0, '\\{}", ["", "u", "u3", "u00e"][rng.below(4)])),
+        ("escapes", "    .asciz \"\\n\\t\\0\\\\\\\"\\u0041\\u20ac\"\n    li t0, '\\u00e9'\n    li t1, '\\''\n".to_string()),
+        ("wide-space-in-string-then-junk", ".asciz \"\u{3000}\u{3000}\u{3000}\" x\n    li t0, \"\u{2003}\u{a0}\" 5\n".to_string()),
+        ("wide-space-before-error", "main:\n\u{3000}addi t0, t0, 1\n    .string \"a\u{3000}\" \"b\u{3000}\u{3000}\" frob\n".to_string()),
+        ("tabs-and-wide-chars", "main:\n\t\taddi\tt0,\tt0,\t@\n\t.asciz\t\"\u{1f600}\u{3000}\"\tjunk\n".to_string()),
         ("only-newlines", "\n".repeat(n)),
         ("only-dots", ". ".repeat(n)),
         ("dots-no-spaces", ".".repeat(n)),
